@@ -523,6 +523,7 @@ func main() {
 	out := flag.String("out", "summary.json", "summary output")
 	n := flag.Int("n", 20, "number of random flat states (mode record)")
 	big := flag.Int("big", 1, "how many of them are large enough to flush batches")
+	backend := flag.String("backend", "pebble", "store used for the large and every fourth random state (memory|pebble)")
 	flag.Parse()
 	seed := int64(tl.EnvInt("VERIF_SEED", 1))
 	sum := tl.NewSummary("c11", *mode, seed)
@@ -533,7 +534,7 @@ func main() {
 	case "cases":
 		runCases(*in, *scheme, sum)
 	case "record":
-		runRecord(*trace, *scheme, seed, *n, *big, sum)
+		runRecord(*trace, *scheme, *backend, seed, *n, *big, sum)
 	default:
 		tl.Fatal("bad mode")
 	}
